@@ -29,8 +29,12 @@ def to_repo_primary(pri):
 
 def to_repo_block(blk, objform=False, admin=False):
     ''' objform: build known block types from a payload object (as the agent
-    does when it originates them) instead of from BTSD octets. '''
+    does when it originates them) instead of from BTSD octets.  objform='bound':
+    additionally leave the type code of such blocks to scapy's layer binding
+    (CanonicalBlock(block_num=..) / HopCountBlock(..)), as bp/agent.py and bp/app/sand.py do. '''
     base = dict(type_code=blk['type'], block_num=blk['num'], block_flags=blk['flags'], crc_type=blk['crc_type'])
+    if objform == 'bound' and blk['type'] in (6, 7, 10):
+        del base['type_code']
     data = bytes.fromhex(blk['data'])
     if objform:
         try:
